@@ -724,7 +724,56 @@ fn synthetic_table(k: usize, bs: usize, bc: usize) -> BTreeMap<u128, u64> {
     t
 }
 
+/// bin arithmetic: every bin size up to B x every multiplicity up to (bin count + 1) x bin size (and far beyond)
+fn c08_bin_lattice(ctx: &mut Ctx) {
+    let bmax = ctx.pick(300usize, 3000);
+    let bc = 7usize;
+    let k = 3usize;
+    let seq = b"AAA";
+    let code: u64 = 0;
+    let mut sh = ctx.shard;
+    let mut n = 0u64;
+    for bs in 1..=bmax {
+        if !sh.mine() {
+            continue;
+        }
+        let mut raw = CovComputer::new("-".into(), "-".into(), k, bs, bc);
+        raw.set_norm(false);
+        let mut mults: Vec<u64> = (0..=((bc as u64 + 1) * bs as u64 + 1)).collect();
+        mults.extend([1_000_000u64, u32::MAX as u64 - 1, u32::MAX as u64]);
+        for mult in mults {
+            let mut hm: HashMap<u64, u32> = HashMap::new();
+            if mult > 0 {
+                hm.insert(code, mult as u32);
+            }
+            ctx.rep.evaluations += 1;
+            n += 1;
+            let exp_bin = std::cmp::min((mult / bs as u64) as usize, bc - 1);
+            let got = guard(|| raw.verif_vectorise_one(seq, &hm));
+            let ok = match &got {
+                Ok(v) => v.len() == bc && (0..bc).all(|b| v[b] == if b == exp_bin { 1.0 } else { 0.0 }),
+                Err(_) => false,
+            };
+            if !ok {
+                ctx.rep.violation(Violation {
+                    key: "bin-arithmetic".into(),
+                    size: bs * 10 + (mult as usize).min(9),
+                    desc: format!("coverage vectorise_one(\"AAA\", k=3) with bin-size {bs}, {bc} bins and multiplicity {mult}: got {:?}, the window belongs in bin min(floor({mult}/{bs}), {}) = {exp_bin}", got, bc - 1),
+                    argv: vec!["case".into(), "C08bin".into(), bs.to_string(), mult.to_string()],
+                });
+                break;
+            }
+            ctx.rep.nontrivial += 1;
+        }
+    }
+    ctx.rep.count("cases.bin_lattice", n);
+    if ctx.shard.is_first() {
+        ctx.rep.sample("bin lattice: bin-size 49, 7 bins, multiplicity 98 -> bin 2 (every bin size up to the bound x every multiplicity up to 8 x bin size)".to_string());
+    }
+}
+
 pub fn c08(ctx: &mut Ctx) {
+    c08_bin_lattice(ctx);
     // per-record routine on synthetic tables
     let mut sh = ctx.shard;
     let mut todo: Vec<Vec<u8>> = Vec::new();
@@ -877,6 +926,23 @@ pub fn replay(ctx: &mut Ctx, args: &[String]) {
             let bs: usize = args[3].parse().unwrap();
             let bc: usize = args[4].parse().unwrap();
             c08_one(ctx, &unhex(&args[1]), k, &synthetic_table(k, bs, bc), bs, bc);
+        }
+        "C08bin" => {
+            let bs: usize = args[1].parse().unwrap();
+            let mult: u64 = args[2].parse().unwrap();
+            let mut raw = CovComputer::new("-".into(), "-".into(), 3, bs, 7);
+            raw.set_norm(false);
+            let mut hm: HashMap<u64, u32> = HashMap::new();
+            if mult > 0 {
+                hm.insert(0, mult as u32);
+            }
+            ctx.rep.evaluations += 1;
+            let exp_bin = std::cmp::min((mult / bs as u64) as usize, 6);
+            let got = guard(|| raw.verif_vectorise_one(b"AAA", &hm));
+            let ok = matches!(&got, Ok(v) if v.len() == 7 && (0..7).all(|b| v[b] == if b == exp_bin { 1.0 } else { 0.0 }));
+            if !ok {
+                viol(ctx, "bin-arithmetic", bs, format!("bin-size {bs} multiplicity {mult}: got {:?}, expected bin {exp_bin}", got), vec![]);
+            }
         }
         "C08direct" => {
             let k: usize = args[2].parse().unwrap();
